@@ -128,9 +128,32 @@ func edSuffixPayload(l *modfile.Line) []string {
 	return out
 }
 
+// edMissingOnlyFrom: every text of had that is missing in has is the text of one of the block's comments.
+func edMissingOnlyFrom(had, has []string, block []modfile.Comment) bool {
+	cnt := map[string]int{}
+	for _, x := range has {
+		cnt[x]++
+	}
+	from := map[string]bool{}
+	for _, c := range block {
+		from[strings.TrimSpace(strings.TrimPrefix(strings.TrimSpace(c.Token), "//"))] = true
+	}
+	for _, x := range had {
+		if cnt[x] > 0 {
+			cnt[x]--
+			continue
+		}
+		if !from[x] {
+			return false
+		}
+	}
+	return true
+}
+
 type edKept struct {
 	before  []string
 	payload []string
+	line    *modfile.Line // the line before the setter
 }
 
 func edAnyComments(c *modfile.Comments, allowIndirect bool) bool {
@@ -192,13 +215,13 @@ func edCheckC16(work bool, file string, ops []edOp) (sig, info string) {
 	if work {
 		for _, u := range pre.Work.Use {
 			if _, ok := kept[u.Path]; !ok {
-				kept[u.Path] = edKept{edComTexts(u.Syntax.Before), edComTexts(u.Syntax.Suffix)}
+				kept[u.Path] = edKept{edComTexts(u.Syntax.Before), edComTexts(u.Syntax.Suffix), u.Syntax}
 			}
 		}
 	} else {
 		for _, r := range pre.Mod.Require {
 			if _, ok := kept[r.Mod.Path]; !ok {
-				kept[r.Mod.Path] = edKept{edComTexts(r.Syntax.Before), edSuffixPayload(r.Syntax)}
+				kept[r.Mod.Path] = edKept{edComTexts(r.Syntax.Before), edSuffixPayload(r.Syntax), r.Syntax}
 			}
 		}
 		oneUncommented = edOneUncommented(pre.Mod.Syntax)
@@ -217,9 +240,11 @@ func edCheckC16(work bool, file string, ops []edOp) (sig, info string) {
 		}()
 		if work {
 			edApplyWork(pre.Work, set)
+			edTrackBlocks(pre, pre.Work.Syntax)
 			pre.Work.Cleanup()
 		} else {
 			edApplyMod(pre.Mod, set)
+			edTrackBlocks(pre, pre.Mod.Syntax)
 			pre.Mod.Cleanup()
 		}
 		return false
@@ -282,12 +307,17 @@ func edCheckC16(work bool, file string, ops []edOp) (sig, info string) {
 		// recorded finding: the requested marking was "direct", the line's comment before the setter was
 		// "// indirect; T" with T itself an indirect marker, and the output line is still indirect
 		if !work {
-			nested = edOnlyRemainderIsMarker(set.List, pre.Mod, reMod, preSuffix)
+			nested = edOnlyRemainderIsMarker(set.List, pre.Mod, reMod, preSuffix, pre.SuffixBlock)
 		}
 		if nested == nil {
 			return "c16-exact-reparse:" + set.Name, "want " + wantS + " got " + got
 		}
 		knownSig, knownInfo = "c16-indirect:remainder-is-marker", "want "+wantS+" got "+got
+		if nested[""] {
+			// every mismatch is the other recorded cause: the line was put into a block that carries an end-of-line
+			// indirect marker (`require () // indirect`), which Cleanup appended to it on collapse
+			knownSig = "c16-indirect:" + edSigEmptyBlockSuffix
+		}
 	}
 	goV := ""
 	if re.Go != nil {
@@ -335,7 +365,15 @@ func edCheckC16(work bool, file string, ops []edOp) (sig, info string) {
 				continue
 			}
 			if !edSubseq(k.payload, edSuffixPayload(r.Syntax)) {
-				return "c16-comments:suffix:" + set.Name, r.Mod.Path + " had " + strings.Join(k.payload, "|") + " has " + strings.Join(edSuffixPayload(r.Syntax), "|")
+				inf := r.Mod.Path + " had " + strings.Join(k.payload, "|") + " has " + strings.Join(edSuffixPayload(r.Syntax), "|")
+				// recorded finding "empty-block-suffix-comment": the line sat in `require () // c`, a Cleanup appended the
+				// block's end-of-line comments to it as FURTHER end-of-line comments, and removing a bare `// indirect`
+				// marker clears the whole list.  Only the texts that came from the block may be missing.
+				if bs := pre.SuffixBlock[k.line]; len(bs) > 0 && edMissingOnlyFrom(k.payload, edSuffixPayload(r.Syntax), bs) {
+					knownSig, knownInfo = "c16-comments:suffix:"+edSigEmptyBlockSuffix, inf
+					continue
+				}
+				return "c16-comments:suffix:" + set.Name, inf
 			}
 		}
 	}
@@ -372,7 +410,9 @@ func edCheckC16(work bool, file string, ops []edOp) (sig, info string) {
 // edOnlyRemainderIsMarker: the re-parsed requirements are the requested ones except for indirect flags, and every
 // flag mismatch has the recorded structural cause (requested direct, re-parsed indirect, comment before the setter
 // "// indirect; <marker>").  Returns the paths concerned; nil = anything else.
-func edOnlyRemainderIsMarker(want []edEnt, typed, re *modfile.File, preSuffix map[*modfile.Require]string) map[string]bool {
+// A mismatch may instead have the recorded cause "empty-block-suffix-comment" (the line sits in a block whose
+// end-of-line comment is an indirect marker); if ALL mismatches are of that kind the result also has the key "".
+func edOnlyRemainderIsMarker(want []edEnt, typed, re *modfile.File, preSuffix map[*modfile.Require]string, suffixBlock map[*modfile.Line][]modfile.Comment) map[string]bool {
 	if re == nil || len(re.Require) != len(want) {
 		return nil
 	}
@@ -385,6 +425,7 @@ func edOnlyRemainderIsMarker(want []edEnt, typed, re *modfile.File, preSuffix ma
 		tyBy[r.Mod.Path] = r
 	}
 	var found map[string]bool
+	nRem, nSuffix := 0, 0
 	for _, e := range want {
 		q := reBy[e.K[0]]
 		if q == nil || q.Mod.Version != e.K[1] {
@@ -399,12 +440,24 @@ func edOnlyRemainderIsMarker(want []edEnt, typed, re *modfile.File, preSuffix ma
 		}
 		pre, had := preSuffix[r]
 		if !had || !edRemainderIsMarker(pre) {
+			if bs := suffixBlock[r.Syntax]; len(bs) > 0 && edIsIndirectTok(bs[0].Token) {
+				nSuffix++
+				if found == nil {
+					found = map[string]bool{}
+				}
+				found[e.K[0]] = true
+				continue
+			}
 			return nil
 		}
+		nRem++
 		if found == nil {
 			found = map[string]bool{}
 		}
 		found[e.K[0]] = true
+	}
+	if found != nil && nRem == 0 && nSuffix > 0 {
+		found[""] = true
 	}
 	return found
 }
@@ -424,6 +477,19 @@ func oracleC16(g *Gen, n int) {
 		if sig, info := edCheckC16(false, edC16NestedFile, ops); sig != "" {
 			seen[sig] = true
 			g.Fail(sig, info+" || file: "+strings.ReplaceAll(edC16NestedFile, "\n", "\\n"), edSessionLine(false, edC16NestedFile, ops))
+		}
+	}
+	{
+		// `require () // indirect`: the Cleanup that must precede a bulk setter collapses the block first, and the
+		// setter then rewrites the marker it finds, so C16 holds here (the typed/re-parse divergence before the
+		// setter is C15's recorded finding "empty-block-suffix-comment")
+		file := "module m\nrequire () // indirect\n"
+		ops := []edOp{{Name: "require", A: []string{"example.com/a", "v1.0.0"}}, {Name: "cleanup"},
+			{Name: "setrequire", List: []edEnt{{K: []string{"example.com/a", "v1.0.0"}, Ind: false, ID: -1}}}, {Name: "cleanup"}}
+		g.Case("c16-setrequire:empty-block-suffix")
+		if sig, info := edCheckC16(false, file, ops); sig != "" {
+			seen[sig] = true
+			g.Fail(sig, info+" || file: "+strings.ReplaceAll(file, "\n", "\\n"), edSessionLine(false, file, ops))
 		}
 	}
 	for i := 0; i < n; i++ {
